@@ -24,16 +24,31 @@ Prefix stores (a store whose n_batches is smaller than the number of batches in 
 covered twice: histories with an `open` operation (NpyStore(filename, bs, n_batches=k)) go through
 the Coq model like all others (`Open k`, specification state = (batches in the file, n_batches));
 a second stream (case kind 'prefix', clause `prefix_store_write`) is python-side only and also
-takes the pickle / original-object-grows / unpickle route, comparing with a plain list of batches."""
+takes the pickle / original-object-grows / unpickle route, comparing with a plain list of batches.
+
+Memory layouts: the batch of every `set` operation is handed to the store in one of the layouts of
+LAYOUTS (C order, Fortran order, transposed / permuted views, every second element of a wider
+buffer, negative strides, a window at an offset, a broadcast row, overlapping sliding windows ...,
+optionally read-only; an overwrite may also come in the opposite byte order).  The Coq case carries
+the array as Store/Layout.v sees it (shape, strides and offset in elements, the buffer as element
+codes, all read off the numpy array that is actually passed); `Npy.lower` turns it into the logical
+content, which is what the model writes and what the specification holds, so trace, reports,
+numpy.load after flush and every crash point are compared with the element (i,j,...) of what was
+handed in.  Python-side clause `caller_batch_untouched`: the store does not modify the array it
+is given (buffer bytes, shape, strides, flags)."""
 import ast
 import pickle
+import random
 import struct
 
 import numpy as np
 from common import *
 
-DTYPES = ['<f8', '<i4', '|b1']
-SHAPES = [(), (3,), (2, 2)]
+DTYPES = ['<f8', '<i4', '|b1', '>f8', '>i4', '<u2', '<c16']
+SHAPES = [(), (3,), (2, 2), (2, 3)]
+# memory layouts of the batch handed to the store (see apply_layout) and their weights
+LAYOUTS = [('C', 20), ('F', 14), ('T', 14), ('perm', 7), ('roll', 7), ('step0', 6), ('steplast', 6), ('Fstep', 6),
+           ('neg', 6), ('neg0', 4), ('neglast', 4), ('off', 6), ('bcast', 3), ('overlap', 3)]
 
 
 # ----------------------------------------------------------------------------------------------
@@ -155,7 +170,8 @@ class _KMemmap(np.memmap):
             c.count -= 1          # nothing was stored: not an operation
             raise
         if isinstance(key, slice) and key.step in (None, 1) and isinstance(key.start, (int, np.integer)):
-            c.log.append(['mem', int(key.start), cells(np.asarray(value))])
+            # what the mapping holds at the slice after the store (not what was handed in)
+            c.log.append(['mem', int(key.start), cells(np.array(np.ndarray.__getitem__(self, key)))])
         else:
             c.log.append(['rawmem', repr(key)])
 
@@ -170,7 +186,70 @@ class _NpProxy:
         return getattr(self._real, n)
 
 
-def make_batch(case, vals, kind='ok'):
+def byte_bounds(arr):
+    f = getattr(getattr(np.lib, 'array_utils', None), 'byte_bounds', None) or np.byte_bounds
+    return f(arr)
+
+
+def filler(a, shape):
+    """values of `a` in another order, to fill the parts of a wider buffer the batch does not cover"""
+    return np.resize(np.flip(a).ravel(), shape).astype(a.dtype)
+
+
+def apply_layout(a, lay):
+    """An array with the logical content of `a` (except 'bcast'/'overlap', whose content is a
+    function of `a`) in the memory layout `lay`."""
+    a = np.ascontiguousarray(a)
+    nd = a.ndim
+    full = (slice(None),) * nd
+    if lay == 'C':
+        return a.copy()
+    if lay == 'F':                       # Fortran order, owning its data (np.asfortranarray(batch))
+        return np.asfortranarray(a).copy(order='F')
+    if lay == 'T':                       # transposed view of a C array (simulator(...).T, np.vstack(cols).T)
+        return np.ascontiguousarray(a.T).T
+    if lay in ('perm', 'roll'):          # axes permuted in memory: neither C nor F contiguous for 3 and more axes
+        axes = list(range(nd))
+        if lay == 'perm' and nd >= 2:
+            axes[-1], axes[-2] = axes[-2], axes[-1]
+        elif lay == 'roll':
+            axes = axes[1:] + axes[:1]
+        inv = [axes.index(i) for i in range(nd)]
+        return np.ascontiguousarray(a.transpose(axes)).transpose(inv)
+    if lay in ('step0', 'steplast', 'Fstep'):      # every second element of a wider buffer along one axis
+        ax = nd - 1 if lay == 'steplast' else 0
+        shape = list(a.shape)
+        shape[ax] = 2 * shape[ax] + 1
+        big = filler(a, shape)
+        if lay == 'Fstep':
+            big = np.asfortranarray(big).copy(order='F')
+        sl = full[:ax] + (slice(1, None, 2),) + full[ax + 1:]
+        big[sl] = a
+        return big[sl]
+    if lay in ('neg', 'neg0', 'neglast'):          # negative strides
+        rev = {'neg': (slice(None, None, -1),) * nd, 'neg0': (slice(None, None, -1),) + full[1:],
+               'neglast': full[:-1] + (slice(None, None, -1),)}[lay]
+        return np.ascontiguousarray(a[rev])[rev]
+    if lay == 'off':                     # a window into a larger buffer
+        big = filler(a, [n + 2 for n in a.shape])
+        sl = (slice(1, -1),) * nd
+        big[sl] = a
+        return big[sl]
+    if lay == 'bcast':                   # one row broadcast to all rows (stride 0, read-only)
+        return np.broadcast_to(a[:1].copy(), a.shape)
+    if lay == 'overlap':                 # overlapping sliding windows over a 1-d buffer (all strides = 1 element)
+        buf = np.resize(a.ravel(), int(sum(n - 1 for n in a.shape)) + 1).astype(a.dtype)
+        return np.lib.stride_tricks.as_strided(buf, shape=a.shape, strides=(a.itemsize,) * nd, writeable=False)
+    raise RuntimeError('unknown layout %r' % (lay,))
+
+
+def op_layout(op):
+    return op[4] if len(op) > 4 else {'lay': 'C', 'ro': False}
+
+
+def make_batch(case, vals, kind='ok', layout=None):
+    """The array handed to the store for a `set` operation: deterministic in its arguments (the child
+    processes and the parent, which describes the array to Coq, build it independently)."""
     dt = np.dtype(case['dtype'])
     shape = (len(vals),) + tuple(case['rowshape'])
     w = int(np.prod(case['rowshape'], dtype=int))
@@ -179,12 +258,49 @@ def make_batch(case, vals, kind='ok'):
         a = (a * 2654435761 >> 7) % 2 == 1
     elif dt.kind == 'f':
         a = a + 0.25
+    elif dt.kind == 'c':
+        a = a + 0.25 + 1j * (a + 0.5)
     a = a.astype(dt).reshape(shape)
     if kind == 'badshape':
         a = np.zeros((len(vals),) + tuple(case['rowshape']) + (2,), dtype=dt)
     elif kind == 'baddtype':
         a = a.astype('<i8' if dt.kind != 'i' else '<f4')
+    elif kind == 'swap':                 # same values, opposite byte order
+        a = a.astype(dt.newbyteorder())
+    if layout is not None and kind in ('ok', 'swap'):
+        a = apply_layout(a, layout['lay'])
+        if layout.get('ro'):
+            a.flags.writeable = False
     return a
+
+
+def snapshot(x):
+    """everything a store could change about the array it is handed"""
+    import ctypes
+    lo, hi = byte_bounds(x)
+    return (x.shape, x.strides, x.dtype.str, bool(x.flags.writeable), ctypes.string_at(lo, hi - lo))
+
+
+def nd_of(x, store_dtype):
+    """The array as coq/Store/Layout.v sees it: shape, strides and offset in elements, and the buffer
+    it is a window into as element codes = the integer of each element's bytes in the store's dtype
+    (an array of the opposite byte order is described by the same geometry over the value-preserving
+    conversion of its buffer)."""
+    import ctypes
+    isz = x.itemsize
+    lo, hi = byte_bounds(x)
+    ptr = x.__array_interface__['data'][0]
+    assert all(st % isz == 0 for st in x.strides) and (ptr - lo) % isz == 0 and (hi - lo) % isz == 0
+    buf = np.frombuffer(ctypes.string_at(lo, hi - lo), dtype=x.dtype)
+    sd = np.dtype(store_dtype)
+    if buf.dtype != sd:
+        assert buf.dtype == sd.newbyteorder()
+        buf = buf.astype(sd)
+    raw = buf.tobytes()
+    codes = [int.from_bytes(raw[k:k + isz], 'little') for k in range(0, len(raw), isz)]
+    return ('{| nd_shape := %s; nd_strides := %s; nd_offset := %s; nd_buf := %s |}'
+            % (clist([cnat(n) for n in x.shape]), clist([cz(st // isz) for st in x.strides]), cz((ptr - lo) // isz),
+               clist([cz(c) for c in codes])))
 
 
 def run_history(case, kill_at, observe, fname):
@@ -213,10 +329,16 @@ def run_history(case, kill_at, observe, fname):
     ctx.log = []
     for op in case['ops']:
         err = False
+        touched = False
         try:
             k = op[0]
             if k == 'set':
-                store[op[1]] = make_batch(case, op[3], op[2])
+                x = make_batch(case, op[3], op[2], op_layout(op))
+                before = snapshot(x) if observe else None
+                try:
+                    store[op[1]] = x
+                finally:
+                    touched = observe and snapshot(x) != before
             elif k == 'del':
                 del store[op[1]]
             elif k == 'clear':
@@ -249,7 +371,7 @@ def run_history(case, kill_at, observe, fname):
         except (IndexError, ValueError, OverflowError, FileNotFoundError):
             err = True
         if observe:
-            o = dict(err=err, len=len(store), load=None)
+            o = dict(err=err, len=len(store), load=None, touched=bool(touched))
             if op[0] in ('flush', 'close', 'reopen', 'pickle', 'open') and store.array.header_length is not None:
                 try:
                     o['load'] = [cells(np.load(fname + '.npy'))]
@@ -330,7 +452,7 @@ def run_prefix(case, fname):
     A = st.NpyStore(fname, bs)
     if case['variant'] == 'nbatches_arg':
         for i, v in enumerate(init):
-            A[i] = make_batch(case, v)
+            A[i] = make_batch(case, v, 'ok', init_layout(case, i))
         A.close() if case['orig'] == 'close' else A.flush()
         target = st.NpyArray(fname) if case['via'] == 'array' else fname
         if case['via'] == 'positional':
@@ -339,10 +461,10 @@ def run_prefix(case, fname):
             B = st.NpyStore(target, bs, n_batches=k)
     elif case['variant'] == 'pickle_grow':
         for i in range(k):
-            A[i] = make_batch(case, init[i])
+            A[i] = make_batch(case, init[i], 'ok', init_layout(case, i))
         blob = pickle.dumps(A)
         for i in range(k, len(init)):
-            A[i] = make_batch(case, init[i])
+            A[i] = make_batch(case, init[i], 'ok', init_layout(case, i))
         A.close() if case['orig'] == 'close' else A.flush()
         B = pickle.loads(blob)
     else:
@@ -369,7 +491,7 @@ def run_prefix(case, fname):
         try:
             kd = op[0]
             if kd == 'set':
-                B[op[1]] = make_batch(case, op[3], op[2])
+                B[op[1]] = make_batch(case, op[3], op[2], op_layout(op))
             elif kd == 'del':
                 del B[op[1]]
             elif kd == 'clear':
@@ -393,14 +515,20 @@ def run_prefix(case, fname):
     return obs
 
 
+def init_layout(case, i):
+    ls = case.get('init_layouts')
+    return ls[i] if ls else None
+
+
 def prefix_reference(case):
-    """The in-memory sequence: a plain Python list of batches.  Entry t = after t operations."""
-    written = [cells(make_batch(case, v)) for v in case['init']]
+    """The in-memory sequence: a plain Python list of batches (logical content of the arrays handed
+    in, whatever their layout).  Entry t = after t operations."""
+    written = [cells(make_batch(case, v, 'ok', init_layout(case, i))) for i, v in enumerate(case['init'])]
     ref = written[:case['k']]
     out = [list(ref)]
     for op in case['ops']:
         if op[0] == 'set':
-            b = cells(make_batch(case, op[3]))
+            b = cells(make_batch(case, op[3], op[2], op_layout(op)))
             if op[1] == len(ref):
                 ref = ref + [b]
             else:
@@ -495,10 +623,18 @@ def c_lop(e):
     return None
 
 
+def c_iop(case, op):
+    """A history operation as Npy.iop: the array of a `set` as (shape, strides, offset, buffer)."""
+    if op[0] == 'set' and op[2] in ('ok', 'swap'):
+        x = make_batch(case, op[3], op[2], op_layout(op))
+        return 'IArr %d %s %s' % (op[1], cbool(op[2] == 'ok'), nd_of(x, case['dtype']))
+    return 'IOp (%s)' % c_hop(case, op)
+
+
 def c_hop(case, op):
     k = op[0]
     if k == 'set':
-        return 'Set_ %d %s %s' % (op[1], cbool(op[2] == 'ok'), c_rows(cells(make_batch(case, op[3]))))
+        return 'Set_ %d %s %s' % (op[1], cbool(op[2] == 'ok'), c_rows(cells(make_batch(case, op[3], op[2]))))
     if k == 'del':
         return 'Del %d' % op[1]
     if k == 'read':
@@ -512,7 +648,7 @@ def c_hop(case, op):
 
 class C06(PropCheck):
     pid = 'C06'
-    header = ('From Coq Require Import List NArith Arith Bool.\nFrom Elfi Require Import Base.Harness Store.Npy.\n'
+    header = ('From Coq Require Import List NArith ZArith Arith Bool.\nFrom Elfi Require Import Base.Harness Store.Layout Store.Npy.\n'
               'Import ListNotations.\nOpen Scope nat_scope.\n')
     case_type = 'Npy.case'
     preds = (('Npy.agree', 'agree'), ('Npy.ok', 'ok'))
@@ -521,7 +657,7 @@ class C06(PropCheck):
             '-- store[i], scans over all batches, a read past the visible end, len(store), i in store, len(store.array) -- interleaved anywhere '
             'at a per-history density of 0-50%, '
             'plus a malformed stream: index past the end, deleting a middle batch, wrong row shape/dtype, operations on a closed '
-            'store) over dtypes <f8 <i4 |b1, row shapes () (3,) (2,2), batch sizes 1-4, each replayed with a kill on entering every '
+            'store) over the dtypes and row shapes listed at the end, batch sizes 1-4, each replayed with a kill on entering every '
             'low-level operation (file-object calls and writes through the memmap alike) and at the end of the history with the store '
             'still open (os._exit in a forked child: Python buffers lost, page cache kept); a durability-ordering stream (appends, a flush-like operation, '
             'then 2-5 segments each bringing the object into one of the states (header pending or not) x (memmap present or not) by '
@@ -536,11 +672,26 @@ class C06(PropCheck):
             'keyword or positional, original closed or only flushed) or by unpickling a pickle taken before the original object appended more '
             'batches and flushed; then a write at index n_batches and further append/overwrite/delete-last/flush/pickle/read/clear operations; '
             'after every operation len(store) and every store[i], after flush-like operations the rows of numpy.load(file) at the visible '
-            'batches; non-trivial = the file holds more batches than the store exposes and the write at index n_batches was carried out')
+            'batches; non-trivial = the file holds more batches than the store exposes and the write at index n_batches was carried out.  '
+            'Memory layouts and dtypes (all streams): dtypes <f8 <i4 |b1 >f8 >i4 <u2 <c16, row shapes () (3,) (2,2) (2,3); the batch of every append '
+            'and overwrite (and every initial batch of a prefix scenario) is handed in as C order / Fortran order (owning) / transposed view of a C '
+            'array / last two axes swapped in memory / axes rotated in memory / every second element along the first or the last axis of a wider '
+            'buffer (C- or Fortran-ordered) / negative strides on all axes, the first, the last / a window at an offset of a larger buffer / one '
+            'row broadcast (stride 0) / overlapping sliding windows (all strides one element), 20% read-only; per history one layout for all '
+            'batches (22%), all C (8%) or one per batch; an overwrite may come in the opposite byte order (same values; good=false: an append of '
+            'it is rejected, an overwrite converts); a layout stream (8 quick / 60 thorough): 2-d and 3-d batches with bs>=2, only non-C layouts, '
+            'appends, overwrites before and after a read created the memmap, flush/reopen/pickle.  The Coq case carries each array as shape + '
+            'strides + offset + buffer of element codes read off the numpy array actually passed; Npy.lower computes its logical content '
+            '(element (r, idx) -> row r, row-major position of idx), which the model writes and the specification holds.  Histogram keys layout=*, '
+            'batch_memory={C+F,C-contiguous,F-contiguous,non-contiguous},ndim=*, batch_F_contiguous_only_with_2+_axes_longer_than_1, '
+            'batch_not_C_contiguous_with_2+_axes_longer_than_1, batch_readonly, layout_for={overwrite,append_or_other}, '
+            'overwrite_in_opposite_byte_order.  py clause caller_batch_untouched: store[i] = batch leaves the array handed in as it was')
     trusted = ('the low-level-operation interposer of harness/c06.py (proxy around the file object NpyArray opens, numpy.memmap subclass handed to '
                'elfi.store whose __setitem__ is numbered and logged; os._exit on entering a numbered operation); '
                'kill = os._exit: user-space buffers are lost, the page cache (including memmap writes) survives; power loss / filesystem reordering not modelled',
-               'numpy.load as the reader of the file left behind')
+               'numpy.load as the reader of the file left behind',
+               'the description of the array handed to the store (harness/c06.py nd_of: numpy .shape/.strides/byte_bounds and the raw bytes of the '
+               'buffer; for a batch of the opposite byte order the buffer converted element-wise to the store dtype by numpy astype)')
 
     # -- generation ----------------------------------------------------------------------------
     def add_queries(self, ops, nb, p, tag='q'):
@@ -602,7 +753,7 @@ class C06(PropCheck):
             elif k == 'over':
                 if nb == 0:
                     continue
-                ops.append(['set', r.randrange(nb), 'ok', vals()])
+                ops.append(['set', r.randrange(nb), 'ok', vals(), {'over': True}])
             elif k == 'del':
                 if nb == 0:
                     continue
@@ -702,7 +853,7 @@ class C06(PropCheck):
             if k in ('over', 'del') and nb == 0:
                 k = 'append'
             if k == 'over':
-                ops.append(['set', r.randrange(nb), 'ok', vals()])
+                ops.append(['set', r.randrange(nb), 'ok', vals(), {'over': True}])
                 pend, mm = False, True
             elif k == 'append':
                 ops.append(['set', nb, 'ok', vals()])
@@ -755,7 +906,7 @@ class C06(PropCheck):
             elif k == 'over':
                 if nb == 0:
                     continue
-                ops.append(['set', r.randrange(nb), 'ok', vals()])
+                ops.append(['set', r.randrange(nb), 'ok', vals(), {'over': True}])
             elif k == 'del':
                 if nb == 0:
                     continue
@@ -818,7 +969,7 @@ class C06(PropCheck):
             elif kd == 'over':
                 if nb == 0:
                     continue
-                ops.append(['set', r.randrange(nb), 'ok', vals()])
+                ops.append(['set', r.randrange(nb), 'ok', vals(), {'over': True}])
             elif kd == 'del':
                 if nb == 0:
                     continue
@@ -837,7 +988,98 @@ class C06(PropCheck):
         ops.append([r.choice(['flush', 'flush', 'close'])])
         return case
 
+    def note_layout(self, case, lo):
+        """histogram of the memory layouts actually handed to the store (flags read off a real array)"""
+        extents = [case['bs']] + list(case['rowshape'])
+        x = apply_layout(np.zeros(extents, dtype=np.dtype(case['dtype'])), lo['lay'])
+        cls = ('C+F' if x.flags.c_contiguous and x.flags.f_contiguous else 'C-contiguous' if x.flags.c_contiguous
+               else 'F-contiguous' if x.flags.f_contiguous else 'non-contiguous')
+        self.bump('layout=' + lo['lay'])
+        self.bump('batch_memory=%s,ndim=%d' % (cls, len(extents)))
+        if sum(1 for n in extents if n > 1) >= 2 and not x.flags.c_contiguous:
+            self.bump('batch_not_C_contiguous_with_2+_axes_longer_than_1')
+        if sum(1 for n in extents if n > 1) >= 2 and x.flags.f_contiguous and not x.flags.c_contiguous:
+            self.bump('batch_F_contiguous_only_with_2+_axes_longer_than_1')
+        if lo['ro'] or not x.flags.writeable:
+            self.bump('batch_readonly')
+        return lo
+
+    def add_layouts(self, case, stream):
+        """Give the batch of every well-formed `set` operation (and every initial batch of a prefix
+        scenario) a memory layout; a history uses either one layout for all its batches or an
+        independent one per batch.  An overwrite of a store that was initialised by the first
+        operation may hand in the batch in the opposite byte order (same values).  Choices come from
+        a generator of their own, so the histories themselves are those of earlier versions."""
+        r = self.lrng
+        dt = np.dtype(case['dtype'])
+        names = [l[0] for l in LAYOUTS]
+        ws = [l[1] for l in LAYOUTS]
+        mode = r.choices(['mixed', 'uniform', 'allC'], [70, 22, 8])[0]
+        one = r.choices(names, ws)[0]
+
+        def pick():
+            lay = 'C' if mode == 'allC' else one if mode == 'uniform' else r.choices(names, ws)[0]
+            return self.note_layout(case, {'lay': lay, 'ro': r.random() < 0.2})
+        ops = case['ops']
+        init_first = bool(ops) and ops[0][0] == 'set' and case.get('kind') != 'prefix'
+        for t, op in enumerate(ops):
+            if op[0] != 'set':
+                continue
+            over = len(op) > 4 and op[4].get('over')
+            del op[4:]
+            if op[2] != 'ok':
+                continue
+            if over and t > 0 and init_first and dt.kind in 'fiu' and dt.itemsize > 1 and r.random() < 0.12:
+                op[2] = 'swap'
+                self.bump('overwrite_in_opposite_byte_order')
+            op.append(pick())
+            self.bump('layout_for=' + ('overwrite' if over else 'append_or_other'))
+        if case.get('kind') == 'prefix':
+            case['init_layouts'] = [pick() for _ in case['init']]
+        return case
+
     def generate(self):
+        st = self.rng.getstate()
+        self.lrng = random.Random(repr((self.seed, 'layouts', st[1][:4], st[1][-1])))
+        for case in self.generate_histories():
+            stream = 'prefix' if case.get('kind') == 'prefix' else 'history'
+            yield self.add_layouts(case, stream)
+        # a layout stream of its own: short histories over 2-d and 3-d batches with at least two axes
+        # longer than 1, every batch in a different non-C layout, appended, overwritten (before and after
+        # a read created the memmap), flushed, reopened and unpickled
+        for i in range(8 if self.tier == 'quick' else 60):
+            self.bump('stream=layout')
+            yield self.gen_layout()
+
+    def gen_layout(self):
+        r = self.lrng
+        case = dict(dtype=r.choice(DTYPES), rowshape=list(r.choice([(3,), (2, 2), (2, 3)])), bs=r.randint(2, 3), ops=[])
+        ops = case['ops']
+        nxt = [1]
+        nonC = [l for l in LAYOUTS if l[0] != 'C']
+
+        def setop(i, over=False):
+            v = list(range(nxt[0], nxt[0] + case['bs']))
+            nxt[0] += case['bs']
+            lay = r.choices([l[0] for l in nonC], [l[1] for l in nonC])[0]
+            self.bump('layout_for=' + ('overwrite' if over else 'append_or_other'))
+            return ['set', i, 'ok', v, self.note_layout(case, {'lay': lay, 'ro': r.random() < 0.2})]
+        nb = 0
+        for seg in range(2):
+            for _ in range(r.randint(1, 2)):
+                ops.append(setop(nb))
+                nb += 1
+            if r.random() < 0.5:
+                ops.append(['read', r.randrange(nb)])
+            ops.append(setop(r.randrange(nb), True))
+            ops.append([r.choice(['flush', 'reopen', 'pickle', 'flush'])])
+            if r.random() < 0.3:
+                ops.append(setop(r.randrange(nb), True))
+        self.bump('layout_dtype=' + case['dtype'])
+        self.bump('layout_rowshape=' + str(tuple(case['rowshape'])))
+        return case
+
+    def generate_histories(self):
         n = 60 if self.tier == 'quick' else 700
         # (the two defect histories found while building this check live in corpus/C06 and run first)
         A, B, X = [1, 2], [3, 4], [5, 6]
@@ -944,6 +1186,10 @@ class C06(PropCheck):
             return [('file_ops_recognised', 'the store issued a file operation outside the modelled repertoire: %r' % (bad[:3],))]
         if out['crash'][-1][1] != out['final']:
             return [('deterministic_replay', 'the crash-free replay left a different file than the plain run')]
+        t = [i for i, o in enumerate(out['obs']) if o.get('touched')]
+        if t:
+            return [('caller_batch_untouched', 'store[i] = batch modified the array it was handed (buffer bytes, shape, strides or flags) '
+                     'at operation(s) %r: %r' % (t, [case['ops'][i][:3] + case['ops'][i][4:] for i in t]))]
         return []
 
     def nontrivial(self, case, out):
@@ -976,9 +1222,9 @@ class C06(PropCheck):
             bt = 'None' if o['batches'] is None else '(Some %s)' % clist([c_rows(b) for b in o['batches']])
             obs.append('{| o_err := %s; o_len := %d; o_batches := %s; o_load := %s |}' % (cbool(o['err']), o['len'], bt, ld))
         crash = clist(['(%d, %s)' % (k, copt(c, c_rows)) for k, c in out['crash']], sep=';\n     ')
-        return ('{| c_variant := current; c_bs := %d;\n   c_ops := %s;\n   c_trace := %s;\n   c_obs := %s;\n   c_trace_obs := %s;\n'
+        return ('{| c_variant := current; c_bs := %d;\n   c_in := %s;\n   c_trace := %s;\n   c_obs := %s;\n   c_trace_obs := %s;\n'
                 '   c_oracle := %s;\n   c_crash := %s |}'
-                % (case['bs'], clist([c_hop(case, op) for op in case['ops']], sep=';\n     '), tr,
+                % (case['bs'], clist([c_iop(case, op) for op in case['ops']], sep=';\n     '), tr,
                    clist(obs, sep=';\n     '), tro, clist([str(x) for x in oracle]), crash))
 
 
